@@ -55,6 +55,7 @@ func runC16(c *Ctx) error {
 	for _, j := range jobs {
 		pool := model.InputPool(inRng, j.CFG, 120, 3)
 		pool = append(pool, model.LongSentences(inRng, j.CFG, 3, 110)...)
+		pool = append(pool, model.DeepSentences(inRng, j.LR, 2, 110)...)
 		for h := 0; h < nH; h++ {
 			n := 2 + inRng.Intn(5)
 			hr := &histRef{job: j}
